@@ -1,6 +1,14 @@
 """H rules: hazmat helper totality (H1) and merge structure (H2)."""
 from mirlib import *
-from absint import Evaluator, AV
+from absint import Evaluator, AV, ty_range, is_intlike
+
+
+def subterms(e):
+    if isinstance(e, tuple):
+        yield e
+        for x in e:
+            if isinstance(x, tuple):
+                yield from subterms(x)
 
 U64 = (1 << 64) - 1
 H1_DOMAINS = [
@@ -171,3 +179,176 @@ def rule_S5(ctx, F):
                  P.cast(P.self_("buf_len"), "usize"))
     ctx.ob(unify(want, e) is not None, "chunk-count-formula", cs.loc,
            "ChunkState::count() = %s ; required BLOCK_LEN * blocks_compressed + buf_len" % show(e))
+
+
+# ------------------------------------------------------------------ H4: subtree-capacity guard ----
+def field_range(F, adt, field):
+    """join of the ranges of every value written to adt.field anywhere in the crate (field invariant by
+    enumeration of its writers: aggregate constructions and assignments through any place)"""
+    acc = None
+    writers = []
+    for p, f in F.fns.items():
+        if not f.has_body:
+            continue
+        for bi, b in enumerate(f.blocks):
+            for s in b["stmts"]:
+                if s.get("k") != "assign":
+                    continue
+                op = None
+                pl = s["place"]["p"]
+                if pl and isinstance(pl[-1], dict) and pl[-1].get("f") == field and pl[-1].get("of") == adt:
+                    if s["rv"]["k"] != "use":
+                        return None, [(p, "non-trivial rvalue")]
+                    op = s["rv"]["op"]
+                elif s["rv"].get("k") == "agg" and s["rv"].get("adt") == adt and field in s["rv"].get("fields", []):
+                    op = s["rv"]["ops"][s["rv"]["fields"].index(field)]
+                elif any(isinstance(x, dict) and x.get("f") == field and x.get("of") == adt for x in pl):
+                    return None, [(p, "write below the field")]
+                if op is None:
+                    continue
+                ve = val(f.expr_operand(op))
+                while ve[0] == "call" and len(ve[2]) == 1 and (ve[1].endswith("Clone::clone") or ve[1].endswith("::clone")):
+                    ve = ve[2][0]
+                if ve[0] == "path" and ve[2] and ve[2][-1] == field:
+                    writers.append((p, s.get("s"), "copy of the same field"))   # inductive: another instance's value
+                    continue
+                ev = Evaluator(F, f, {})
+                v = ev.eval(f.expr_operand(op), ev.env_at(bi))
+                rng = AV(0, U64)
+                v = v.meet(rng) if not v.empty else v
+                writers.append((p, s.get("s"), str(v)))
+                acc = v if acc is None else acc.join(v)
+        # &mut borrows of the field would escape this enumeration
+        for bi, b in enumerate(f.blocks):
+            for s in b["stmts"]:
+                if s.get("k") == "assign" and s["rv"].get("k") == "ref" and s["rv"].get("mut"):
+                    pl = s["rv"]["place"]["p"]
+                    if pl and isinstance(pl[-1], dict) and pl[-1].get("f") == field and pl[-1].get("of") == adt:
+                        writers.append((p, s.get("s"), "&mut"))
+    return acc, writers
+
+
+def offset_only(e):
+    """every leaf is the initial_chunk_counter field, a constant, or max_subtree_len of such"""
+    if not isinstance(e, tuple):
+        return True
+    if e[0] == "const":
+        return True
+    if e[0] == "path":
+        return e[1] == ("arg", 1, "self") and e[2] == ("initial_chunk_counter",) or (e[1][0] == "call" and offset_only(e[1]))
+    if e[0] == "call":
+        return e[1] == "hazmat::max_subtree_len" and all(offset_only(a) for a in e[2])
+    if e[0] in ("bin", "cast", "un"):
+        return all(offset_only(x) for x in e[1:] if isinstance(x, tuple))
+    return False
+
+
+def linform(e):
+    """(a, b, c) with value = a*offset + b*max + c as exact integers, or None (offset = counter * CHUNK_LEN)"""
+    if e[0] == "const":
+        return (0, 0, e[2]) if isinstance(e[2], int) else None
+    if e[0] == "cast":
+        return linform(e[1])
+    if e[0] == "path":
+        if e[1][0] == "call":
+            return (0, 1, 0)
+        return None                      # the bare counter: only its product with CHUNK_LEN is linear in the offset
+    if e[0] == "call":
+        return (0, 1, 0)
+    if e[0] == "bin":
+        op = e[1].replace("WithOverflow", "")
+        if op == "Mul":
+            for x, y in ((e[2], e[3]), (e[3], e[2])):
+                if x[0] == "path" and x[2] == ("initial_chunk_counter",):
+                    cy = linform(y)
+                    if cy and cy[0] == 0 and cy[1] == 0 and cy[2] == 1024:
+                        return (1, 0, 0)
+            l, r = linform(e[2]), linform(e[3])
+            if l and r:
+                for p, q in ((l, r), (r, l)):
+                    if p[0] == 0 and p[1] == 0:
+                        return (q[0] * p[2], q[1] * p[2], q[2] * p[2])
+            return None
+        l, r = linform(e[2]), linform(e[3])
+        if l is None or r is None:
+            return None
+        if op == "Add":
+            return (l[0] + r[0], l[1] + r[1], l[2] + r[2])
+        if op == "Sub":
+            return (l[0] - r[0], l[1] - r[1], l[2] - r[2])
+    return None
+
+
+def rule_H4(ctx, F):
+    """update_with_join's subtree-capacity assertion must be decidable without upward overflow on the
+    whole domain of chunk-aligned offsets: evaluated on the finite partition of offsets by their lowest
+    set bit (where max_subtree_len is exact), every Add/Mul/Shl inside the assertion's condition stays
+    within its type.  (A Sub there underflows exactly when the capacity is already exceeded -- the state
+    the assertion exists to reject -- and is not an obligation.)"""
+    fn = F.need_fn("Hasher::update_with_join")
+    inv, writers = field_range(F, "Hasher", "initial_chunk_counter")
+    mut_escape = [w for w in writers if w[2] == "&mut" and "zeroize" not in w[0].lower()]
+    ok = inv is not None and not inv.empty and inv.lo >= 0 and inv.hi <= (1 << 54) - 1 and not mut_escape
+    ctx.ob(ok, "field-invariant:Hasher.initial_chunk_counter", fn.loc,
+           "writers %s => range %s ; required within [0, 2^54-1] (so that counter * CHUNK_LEN fits u64)" % ([(w[0].split("::")[-1], w[2]) for w in writers], inv))
+    if not ok:
+        return
+    # the capacity assertion: the panic site dominated by the Some edge of max_subtree_len's result
+    ms = [(bi, t) for bi, t in fn.calls() if callee_name(t["callee"]) == "hazmat::max_subtree_len"]
+    ctx.ob(len(ms) == 1, "capacity-guard-present", fn.loc, "%d call(s) to max_subtree_len" % len(ms))
+    if len(ms) != 1:
+        return
+    MS = val(fn.expr_call(ms[0][1]))
+    conds = []
+    for bi, b in enumerate(fn.blocks):
+        t = b["term"]
+        if t["k"] == "switch" and t["opty"] == "bool":
+            c = val(fn.expr_operand(t["op"]))
+            if find_sub(c, MS) is not None:
+                conds.append((bi, fn.expr_operand(t["op"]), c, t.get("s")))
+    ctx.ob(len(conds) >= 1, "capacity-assertion-found", fn.loc, "%d branch(es) on a condition involving max_subtree_len's result" % len(conds))
+    nops = 0
+    fails = []
+    for k in range(10, 64):
+        lo = 1 << (k - 10)
+        dom = {"self.initial_chunk_counter": AV(lo, (1 << 54) - lo, 1 << (k - 9), lo)}
+        # the callee's result on this cell (exact: 2^k), from the callee's own body
+        callee = F.need_fn("hazmat::max_subtree_len")
+        cev = Evaluator(F, callee, {"input_offset": AV(1 << k, (1 << 64) - (1 << k), 1 << (k + 1), 1 << k)})
+        payload = None
+        for cb, cgs, ce in ret_alternatives(callee):
+            cenv = cev.env_at(cb)
+            if cev.feasible(cenv) and ce[0] == "adt" and ce[4]:
+                v = cev.eval(ce[4][0], cenv)
+                payload = v if payload is None else payload.join(v)
+        if payload is None:
+            fails.append("max_subtree_len has no Some(..) result for offsets with lowest set bit 2^%d" % k)
+            continue
+        ev = Evaluator(F, fn, dom, ret_ranges={"hazmat::max_subtree_len": payload})
+        for bi, raw, c, loc in conds:
+            env = ev.env_at(bi)
+            for node in subterms(raw):
+                op = node[1].replace("WithOverflow", "") if node[0] == "bin" else None
+                if op in ("Add", "Sub", "Mul") and len(node) > 4 and isinstance(node[4], str) and is_intlike(node[4]):
+                    vn = val(node)
+                    if not offset_only(vn):
+                        continue      # operands outside the exactly-known cell values (count(), input.len()): not decidable here, no obligation
+                    lf = linform(vn)
+                    if lf is None:
+                        continue
+                    nops += 1
+                    a, bm, c = lf
+                    olo, ohi = 1 << k, (1 << 64) - (1 << k)
+                    vals = [a * o + bm * (1 << k) + c for o in (olo, ohi)]
+                    rng = ty_range(node[4])
+                    if min(vals) < rng[0] or max(vals) > rng[1]:
+                        o_bad = olo if not (rng[0] <= vals[0] <= rng[1]) else ohi
+                        fails.append("%s = %d for input offset %#x (max_subtree_len = 2^%d), outside %s" % (show(vn)[:110], a * o_bad + bm * (1 << k) + c, o_bad, k, node[4]))
+    ctx.ob(not fails, "capacity-check-no-upward-overflow", conds[0][3] if conds else fn.loc,
+           "; ".join(fails[:2]) or "%d operation instance(s) over the offset and max_subtree_len inside the capacity condition, all exactly within range on the 54 offset cells" % nops)
+    # the argument of max_subtree_len is the offset itself and its product does not overflow
+    arg = MS[2][0]
+    want = P.bin("Mul", ("path", ("arg", 1, "self"), ("initial_chunk_counter",)), W())
+    ev = Evaluator(F, fn, {"self.initial_chunk_counter": inv})
+    a = ev.eval(fn.expr_call(ms[0][1])[2][0] if False else arg, ev.env_at(ms[0][0]))
+    ctx.ob(not a.empty and a.lo >= 0 and a.hi <= U64 - 1023, "capacity-offset-in-range", fn.loc, "max_subtree_len(%s) argument range %s" % (show(arg)[:80], a))
